@@ -10,6 +10,57 @@ RULE = ("TLC enumerates expression trees in Polish notation: every one-operator 
 ASSUMPTIONS = ["numbers are compared as decimals (7 = 7.0)", "lstat size/nlink as ground truth"]
 
 
+def mech(tier, seed):
+    # the per-row value cache: its key (ExprKey!ExprText, the model of `impl Display for Expr`) is injective on the parsed trees of
+    # every arithmetic expression of the generator's families (thorough tier: the run takes about half a minute)
+    return [] if tier == "quick" else [dict(module="MC_ExprMemo", cfg="MC_ExprMemo", workers=8, actions=[], coverage=False)]
+
+
+def _exprkey_conformance(ctx, tier, seed):
+    """Model key = real key: `select <expr> into json` prints the Display text of the expression as its single JSON key."""
+    import json
+    import random
+    import time
+    from driver import lib, check
+    t0 = time.time()
+    r = lib.run_tlc("MC_ExprMemo", "MC_ExprMemo_gen", workers=4)
+    lib.tlc_ok(r, "MC_ExprMemo")
+    scs = [x for x in r.replays if x.get("kind") == "exprkey"]
+    random.Random(seed + 5).shuffle(scs)
+    if tier == "quick":
+        scs = scs[:500]
+
+    def ex(item):
+        i, scn = item
+        scn = dict(scn, id=i + 1)
+        rec = check.default_execute(scn, ctx)
+        o = rec["obs"]["q"]
+        try:
+            rows = json.loads(o.get("text") or "[]")
+            keys = list(rows[0].keys()) if rows else []
+        except Exception:
+            keys = []
+        return {"id": i + 1, "class": scn["class"], "key": scn["key"], "runs": scn["runs"],
+                "obs": {"q": {"status": o["status"], "timed_out": o["timed_out"], "panic": o["panic"],
+                              "jsonkey": list(keys[0]) if len(keys) == 1 else ["?"]}}}
+    obs = lib.pmap(ex, list(enumerate(scs)), workers=12)
+
+    class P:
+        ID = "C15"
+        JUDGE = "Judge_ExprKey"
+    verdicts, jstates = check.judge(P, obs, ctx, shards=4)
+    bad = [v for v in verdicts if not v["ok"]]
+    byid = {o["id"]: o for o in obs}
+    drift = ["%s argv=%s real=%s model=%s" % (v["why"], json.dumps(byid[v["id"]]["runs"][0]["argv"])[:160],
+                                             "".join(byid[v["id"]]["obs"]["q"]["jsonkey"]), "".join(byid[v["id"]]["key"])) for v in bad[:8]]
+    return {"name": "ExprKey", "kind": "replay", "module": "ExprKey", "states": jstates, "validated": len(verdicts) - len(bad),
+            "rejected": len(bad), "drift": drift, "wall_s": round(time.time() - t0, 1)}
+
+
+def conformance(tier, seed):
+    return [dict(name="ExprKey", run=_exprkey_conformance)]
+
+
 def generators(tier, seed):
     return [dict(module="MC_C15", workers=4)]
 
